@@ -53,7 +53,7 @@ pub fn kind_name(k: Kind) -> &'static str { match k { Kind::Pk => "pk", Kind::Sk
 pub fn run(env: &Env) {
     let seed = env.ctx.seed;
     let maxlen = if env.thorough() { 2048 } else { 1024 };
-    env.ctx.set_rule("every byte length 0..=1024 (thorough 0..=2048) x 6 content classes (zeros, ff, identity pattern, honest encoding truncated/zero-extended, honest prefix then ff, seeded random) x 16 byte-taking entry points (incl. proof / blind proof verification with nothing disclosed, None and empty forms) (8 decoders, deserialize_and_validate_commit, proof_gen(signature bytes), verify(pk bytes), blind_sign(commitment bytes), proof_verify(proof bytes), blind_proof_verify(proof bytes)); JSON: every leaf of the honest JSON of 6 types x 12 substitutions + removal; index lists: ALL lists of length <= 3 over {0,1,L-1,L,L+1,2^32,2^63,usize::MAX-1,usize::MAX} for proof_gen / proof_verify / blind_proof_gen / blind_proof_verify (each side), message-count mismatches, L and n alphabets for blind_proof_verify / update_signature; both suites. Oracle: the call returns Ok or Err (no panic, no abort, no hang), CPU <= 250 ms + 20 us/byte + 2 ms/count, allocation <= 256 KiB + 256 B/byte + 8 KiB/count. State = one (entry point, input) case; all are non-trivial (each reaches the real entry point).");
+    env.ctx.set_rule("every 32-octet scalar slot of the honest signature / proof / blind proof / commitment set to each of {0, 1, r-1, r, r+1, -sk, -sk+-1, sk} and handed to its consumers (incl. update_signature and verify); every byte length 0..=1024 (thorough 0..=2048) x 6 content classes (zeros, ff, identity pattern, honest encoding truncated/zero-extended, honest prefix then ff, seeded random) x 16 byte-taking entry points (incl. proof / blind proof verification with nothing disclosed, None and empty forms) (8 decoders, deserialize_and_validate_commit, proof_gen(signature bytes), verify(pk bytes), blind_sign(commitment bytes), proof_verify(proof bytes), blind_proof_verify(proof bytes)); JSON: every leaf of the honest JSON of 6 types x 12 substitutions + removal; index lists: ALL lists of length <= 3 over {0,1,L-1,L,L+1,2^32,2^63,usize::MAX-1,usize::MAX} for proof_gen / proof_verify / blind_proof_gen / blind_proof_verify (each side), message-count mismatches, L and n alphabets for blind_proof_verify / update_signature; both suites. Oracle: the call returns Ok or Err (no panic, no abort, no hang), CPU <= 250 ms + 20 us/byte + 2 ms/count, allocation <= 256 KiB + 256 B/byte + 8 KiB/count. State = one (entry point, input) case; all are non-trivial (each reaches the real entry point).");
     env.ctx.assume("budgets are one to two orders of magnitude above the measured honest costs so that timing noise cannot raise an alarm; the defects they exist for exceed them by more than six orders");
     let mut cases: Vec<Case> = Vec::new();
     for s in suites() {
@@ -72,6 +72,27 @@ pub fn run(env: &Env) {
                     // blind_sign derives the number of blind generators from the commitment length: that count is legitimate work
                     let count = if *f == "blind_sign_cwp" || *f == "davc" || f.ends_with("_bytes") { n / 32 + 4 } else { 0 };
                     cases.push(Case { case: json!({"f": f, "s": sn, "b": hex::encode(&bytes), "class": cn, "len": n}), class: format!("{}:{}", f, cn), bytes: n, count, expect_ok: None });
+                }
+            }
+        }
+        // 1a. every 32-octet scalar slot of an honest encoding set to each special scalar (0, 1, r - 1, r, r + 1, -sk, -sk +- 1):
+        //     values that make an inversion, a subtraction or a comparison inside the consumer degenerate
+        {
+            use bls12_381_plus::Scalar;
+            let sk = refbbs::octets_to_scalar_strict(&b.key.sk).unwrap();
+            let r_minus_1 = (-Scalar::ONE).to_be_bytes();
+            let mut r_bytes = r_minus_1; { let mut i = 31; loop { let (v, c) = r_bytes[i].overflowing_add(1); r_bytes[i] = v; if !c || i == 0 { break; } i -= 1; } }
+            let mut r_plus_1 = r_bytes; { let mut i = 31; loop { let (v, c) = r_plus_1[i].overflowing_add(1); r_plus_1[i] = v; if !c || i == 0 { break; } i -= 1; } }
+            let specials: Vec<(&str, [u8; 32])> = vec![("0", [0u8; 32]), ("1", Scalar::ONE.to_be_bytes()), ("r-1", r_minus_1), ("r", r_bytes), ("r+1", r_plus_1), ("-sk", (-sk).to_be_bytes()), ("-sk+1", (-sk + Scalar::ONE).to_be_bytes()), ("-sk-1", (-sk - Scalar::ONE).to_be_bytes()), ("sk", sk.to_be_bytes())];
+            let slotted: Vec<(&str, &Vec<u8>, usize)> = vec![("update_signature_sig", &b.sig, 48), ("verify_sig", &b.sig, 48), ("proof_gen_sig", &b.sig, 48), ("dec_sig", &b.sig, 48), ("proof_verify_bytes", &b.proof, 144), ("blind_proof_verify_bytes", &b.bproof, 144), ("dec_proof", &b.proof, 144), ("blind_sign_cwp", &b.cwp, 48), ("davc", &b.cwp, 48), ("dec_commitment", &b.cwp, 48)];
+            for (f, honest, first) in slotted {
+                let mut off = first;
+                while off + 32 <= honest.len() {
+                    for (sn_, sv) in &specials {
+                        let mut bytes = honest.clone(); bytes[off..off + 32].copy_from_slice(sv);
+                        cases.push(Case { case: json!({"f": f, "s": sn, "b": hex::encode(&bytes), "class": format!("scalar@{} := {}", off, sn_), "len": bytes.len()}), class: format!("{}:special-scalar", f), bytes: bytes.len(), count: bytes.len() / 32 + 4, expect_ok: None });
+                    }
+                    off += 32;
                 }
             }
         }
